@@ -353,11 +353,25 @@ Definition sort_by {A} (key : A -> Q) (l : list A) : list A := fold_right (inser
 
 Definition line_analyze (l : line) : line := mkLine (lori l) (lelems l ++ [EAnno [10%Z]]) (lbox l) (llast l).
 
-(* LTTextBoxHorizontal/Vertical.analyze: lines get their line break, then sort by -y1 / -x1 *)
+(* sorting by a tuple key: (a1, a2) <= (b1, b2) *)
+Definition pair_le (a b : Q * Q) : bool :=
+  if Qeq_bool (fst a) (fst b) then Qle_bool (snd a) (snd b) else Qle_bool (fst a) (fst b).
+Fixpoint insert_le {A} (le : A -> A -> bool) (x : A) (l : list A) : list A :=
+  match l with
+  | [] => [x]
+  | y :: r => if le x y then x :: l else y :: insert_le le x r
+  end.
+Definition sort_le {A} (le : A -> A -> bool) (l : list A) : list A := fold_right (insert_le le) [] l.
+
+(* LTTextBoxHorizontal/Vertical.analyze: lines get their line break, then sort by (-y1, x0) / (-x1, -y1) *)
+Definition line_key (lines : list line) (b : tbox) (m : nat) : Q * Q :=
+  match nth_error lines m with
+  | Some l => let bb := the_box (lbox l) in
+              match bori b with OH => (- by1 bb, bx0 bb) | OV => (- bx1 bb, - by1 bb) end
+  | None => (0, 0)
+  end.
 Definition box_lines_sorted (lines : list line) (b : tbox) : list nat :=
-  sort_by (fun m => match nth_error lines m with
-                    | Some l => match bori b with OH => - by1 (the_box (lbox l)) | OV => - bx1 (the_box (lbox l)) end
-                    | None => 0 end) (blines b).
+  sort_le (fun m1 m2 => pair_le (line_key lines b m1) (line_key lines b m2)) (blines b).
 
 Fixpoint tree_box (boxes : list tbox) (t : tnode) : box :=
   match t with
@@ -391,12 +405,6 @@ Definition flat_le (a b : tbox) : bool :=
   | OH, OH => let ka := - by0 (bbbox a) in let kb := - by0 (bbbox b) in
               if Qeq_bool ka kb then Qle_bool (bx0 (bbbox a)) (bx0 (bbbox b)) else Qle_bool ka kb
   end.
-Fixpoint insert_le {A} (le : A -> A -> bool) (x : A) (l : list A) : list A :=
-  match l with
-  | [] => [x]
-  | y :: r => if le x y then x :: l else y :: insert_le le x r
-  end.
-Definition sort_le {A} (le : A -> A -> bool) (l : list A) : list A := fold_right (insert_le le) [] l.
 
 (* ---------- LTLayoutContainer.analyze on the glyphs of a container ----------------------------------------- *)
 Record outbox := mkOut { oori : orient; oindex : Z; obbox : box; olines : list line }.
